@@ -623,7 +623,7 @@ pub fn drive(cfg: &Cfg, meta: &PropMeta, scenarios: Vec<Scenario<'_>>, post: Opt
     // A panic raised inside the simulator dylib cannot be caught here (the dylib links its own
     // copy of std: "Rust cannot catch foreign exceptions") and aborts this process. The wrapper
     // learns which run that was from this marker file.
-    let marker = cfg.out.as_ref().map(|o| PathBuf::from(format!("{}.cur", o.display())));
+    let marker = std::env::var("VERIF_E5_MARKER").ok().map(PathBuf::from).or_else(|| cfg.out.as_ref().map(|o| PathBuf::from(format!("{}.cur", o.display()))));
     // (one open handle, fixed-width record rewritten in place: no per-run metadata operations)
     let marker_file = marker.as_ref().and_then(|m| std::fs::OpenOptions::new().create(true).write(true).truncate(true).open(m).ok());
     while r < runs {
